@@ -66,3 +66,44 @@ package tq
 //@   props C15
 //@   ensures result0 != nil ==> result1 == nil
 //@   ensures result0 != nil ==> !(ite(result0.ExpiresIn == 0, result0.ExpiresAt, time_add(result0.createdAt, result0.ExpiresIn * 1000000000)) != time_zero && time_after(time_add(time_now(), 5000000000), ite(result0.ExpiresIn == 0, result0.ExpiresAt, time_add(result0.createdAt, result0.ExpiresIn * 1000000000))))
+
+// C02.  download() is entered with the temp file positioned at its end, holding
+// fromByte bytes that the hasher (if any) has already absorbed.  It reports
+// success only when the object's final path holds content hashing to the id,
+// and on failure leaves that path untouched.  The "already exists" arm relies
+// on the store being valid (other git-lfs processes only put hash-valid files
+// there).
+//@ func (*basicDownloadAdapter).download
+//@   props C02 C09
+//@   requires @inv t != nil && dlFile != nil && fpath(dlFile) != t.Path
+//@   requires @inv fexists(t.Path) ==> hexsha(fdata(t.Path)) == t.Oid
+//@   requires fromByte >= 0
+//@   requires rrest(iface(dlFile)) == ""
+//@   requires fromByte == 0 ==> fdata(fpath(dlFile)) == ""
+//@   requires fromByte > 0 ==> hash != nil && is_sha256(hash) && wbuf(hash) == fdata(fpath(dlFile))
+//@   ensures result == nil ==> fexists(old(t.Path)) && hexsha(fdata(old(t.Path))) == old(t.Oid)
+//@   ensures result != nil ==> fexists(old(t.Path)) == old(fexists(t.Path)) && fdata(old(t.Path)) == old(fdata(t.Path))
+//@   decreases fromByte
+
+// Network side of the adapter (assumed frames: they build and send requests
+// and touch neither the transfer nor local files).
+//@ func (*adapterBase).newHTTPRequest
+//@   assumed
+//@   props C02
+//@   modifies fresh
+//@   ensures result1 == nil ==> result0 != nil && result0.Header != nil
+//@ func (*basicDownloadAdapter).makeRequest
+//@   assumed
+//@   props C02
+//@   modifies fresh
+//@   ensures result1 == nil ==> result0 != nil && result0.Body != nil && result0.Header != nil
+//@   ensures result0 != nil ==> result0.Header != nil
+//@ func advanceCallbackProgress
+//@   assumed
+//@   props C02
+//@   noeffect
+//@ func (*github.com/git-lfs/git-lfs/v3/lfsapi.Client).LogRequest
+//@   assumed
+//@   props C02
+//@   modifies fresh
+//@   ensures result != nil && result.Header != nil
